@@ -679,6 +679,13 @@ class Sim:
 STRICT_UNWRITTEN = True
 
 
+# component-clearing editors and the offsets that bracket the span they empty
+CLEARS = {
+    "ada::url_aggregator::clear_password": ("host_start", "username_end"),
+    "ada::url_aggregator::clear_port": ("pathname_start", "host_end"),
+}
+
+
 def check(ctx, fx, editors, rule="S6"):
     nfun = npath = nedit = nun = 0
     for f, bind in editors:
@@ -693,13 +700,37 @@ def check(ctx, fx, editors, rule="S6"):
         sim = Sim(fx, f)
         sim.run()
         nfun += 1
+        # a function that CLEARS a component erases exactly the span between the two offsets that bracket it (an erase one byte
+        # short keeps the accounting consistent -- every offset moves by what was erased -- and leaves a byte that belongs to
+        # no component; the simulation abandons such a path because the erase does not end at a boundary)
+        span = CLEARS.get(f["qname"])
+        if span is not None:
+            from lib.norm import lin
+            a, b_ = span
+            inits = C.single_inits(f)
+            for n, s_, bb in C.all_nodes(f):
+                if n.get("k") == "call" and n.get("name") == "erase" and n.get("recv") is not None and X.path(n["recv"]) == "this.buffer" \
+                        and len(n.get("args", [])) == 2:
+                    pos = lin(C.subst_inits(n["args"][0], inits))
+                    ln = lin(C.subst_inits(n["args"][1], inits))
+                    want_pos = (("+this.components.%s" % b_,), 0)
+                    want_len = (("+this.components.%s" % a, "-this.components.%s" % b_), 0)
+                    ctx.check(rule, "%s erases exactly [%s, %s)" % (f["qname"].split("::")[-1], b_, a), pos == want_pos and ln == want_len,
+                              "erase(%s, %s - %s)" % (b_, a, b_),
+                              "%s erases `%s` bytes at `%s`; the component's span is [%s, %s): what is left of it belongs to no "
+                              "component (or a neighbour's byte is removed)" % (f["qname"].split("::")[-1], X.show(n["args"][1]), X.show(n["args"][0]), b_, a),
+                              where=(s_.get("loc") or f["loc"]).replace("/repo/", ""))
         nun += len(sim.unaccounted)
         # group results by exit: a path is fine when its code values equal the reference; tie alternatives of the
         # same path prefix were forked, so a path is accepted when *any* alternative with the same code values matches
         groups = {}
         for st, loc in sim.results:
+            # (which edit STATEMENTS ran is part of the path's identity -- `if (buffer[host_start] != '@') insert "@"` and its
+            # other branch are two paths, not two readings of one --; how a tie was read is not)
+            def _stmt(x):
+                return x[x.index("("):] if (x.startswith("insert") or x.startswith("erase")) and "(" in x else x
             sig = (tuple(sorted((o, st.code[o].key()) for o in st.written)), loc,
-                   tuple(x for x in st.trace if not x.startswith("insert") and not x.startswith("erase")))
+                   tuple(_stmt(x) for x in st.trace))
             groups.setdefault(sig, []).append(st)
         for sig, sts in sorted(groups.items(), key=lambda kv: str(kv[0])):
             if not any(st.edits - st.appends for st in sts):
